@@ -677,7 +677,8 @@ fn eval(ctx: &mut Ctx, c13: bool, c: Case) {
 }
 
 fn originals(quick: bool) -> Vec<String> {
-    let mut v = gen::strings(&["a", ",", " ", "é", "1", "-"], if quick { 3 } else { 4 });
+    let _ = quick;
+    let mut v = gen::strings(&["a", ",", " ", "é", "1", "-"], 3);
     for s in ["  a,b é,,漢  ", "12,-5;true", "  a  ", "a,a,a", "aa,aa", ",,", "-128,255,256", "truefalse1", "é,é,é", "\t1 , 2\n", "a,aa,a", "😀,😀"] {
         v.push(s.to_string());
     }
@@ -707,8 +708,8 @@ fn explore(ctx: &mut Ctx, c13: bool) {
             return;
         }
     }
-    ctx.exhaustive_part(&format!("{} originals (all strings <= {} symbols over {{a , ' ' é 1 -}} + 12 shaped ones) x bases {{0,7,2^31}} x all op sequences of depth 1-2 over {} op instances (every Parser method x 11 patterns, skip/skip_back 0..=6, 7 parse types)", origs.len(), if quick { 3 } else { 4 }, all_ops(6, true).len()));
-    let d3: Vec<&String> = origs.iter().filter(|s| s.chars().count() >= 3).step_by(if quick { 20 } else { 2 }).collect();
+    ctx.exhaustive_part(&format!("{} originals (all strings <= {} symbols over {{a , ' ' é 1 -}} + 12 shaped ones) x bases {{0,7,2^31}} x all op sequences of depth 1-2 over {} op instances (every Parser method x 11 patterns, skip/skip_back 0..=6, 7 parse types)", origs.len(), 3, all_ops(6, true).len()));
+    let d3: Vec<&String> = origs.iter().filter(|s| s.chars().count() >= 3).step_by(if quick { 20 } else { 5 }).collect();
     for orig in &d3 {
         let ops = all_ops(orig.len(), false);
         for a in &ops {
